@@ -33,10 +33,10 @@ ASSUMPTIONS = [
   'the importer is not handed lone surrogates, a BOM, blank-only cells, or cells that float()/int() accept or that look '
   'like booleans or dates (type and header guessing are not part of the property)',
 ]
-REQUIRED = {'files_checked': {'quick': 3500, 'thorough': 35000},
-            'cells_checked': {'quick': 1000000, 'thorough': 10000000},
-            'files_over_100_rows': {'quick': 1200, 'thorough': 12000},
-            'files_free_of_known_triggers': {'quick': 3000, 'thorough': 30000}}
+REQUIRED = {'files_checked': {'quick': 3500, 'thorough': 100000},
+            'cells_checked': {'quick': 1000000, 'thorough': 30000000},
+            'files_over_100_rows': {'quick': 1200, 'thorough': 35000},
+            'files_free_of_known_triggers': {'quick': 3000, 'thorough': 90000}}
 SHARD_TIMEOUT = {'quick': 240, 'thorough': 1800}
 
 LINEBREAKS = u'\x0b\x0c\x1c\x1d\x1e\x85\u2028\u2029'      # where str.splitlines() breaks, besides CR and LF
@@ -49,7 +49,7 @@ _DATEISH = re.compile(r'^\s*\d+\s*[-/.:]\s*\d+')
 
 
 def plan(tier, seed):
-  n, files = (16, 300) if tier == 'quick' else (32, 1500)
+  n, files = (16, 300) if tier == 'quick' else (32, 4000)
   return [{'witness': w} for w in KNOWN] + [{'hseed': seed * 100003 + i, 'files': files} for i in range(n)]
 
 
